@@ -23,6 +23,6 @@ def main(tier):
     chk.assume('in_polygon is proved for counter-clockwise triangles with no edge within 1e-3 of horizontal; general polygons (Jordan-curve argument), the wave search, column_track ordering and lengths: bounded')
     chk.explanation = ('clause -> evidence: in_rectangle == closed-box membership, rectangles_intersect symmetric and <=> a common point, the four sub-rectangles cover the parent and overlap only on the '
                        'centre lines (so the quadtree places every element), bounds_of_points is the tight box (n up to 8), quadtree.leaf returns a node containing the point / None iff outside, '
-                       'layer_containing_elevation returns the unique containing underground layer off boundaries, in_polygon exact on triangles incl. rays through a vertex: PROVED. '
+                       'layer_containing_elevation returns the unique containing underground layer off boundaries, in_polygon exact on triangles incl. rays through a vertex, line_intersects_rectangle: a rejected segment has no point in the rectangle and the clipping never divides by zero (all 149 paths of the clipping loop): PROVED. '
                        'Agreement of every search aid with exhaustive search on real meshes, block location, line tracks: BOUNDED.')
     return chk.finish()
